@@ -1,5 +1,5 @@
 (* C15 — fixing a design variable restricts the design space exactly; freeing restores it. *)
-From DSG Require Import Base Proc ProcP.
+From DSG Require Import Base Proc ProcP Dsg Sel Neighborhood NeighborhoodP Greedy GreedyP.
 Open Scope Z_scope.
 
 (* every design of the restricted problem is an original design (column removed) in which the variable has that value —
@@ -60,3 +60,23 @@ Print Assumptions C15_inplace_mask_refuted.
 Example C15_ex : restrict_rows true 0 1 [[0;-1];[1;0];[1;1]]%Z = [[0];[1]]%Z
   /\ restrict_rows false 1 0 [[0;-1];[1;0];[1;1]]%Z = [[0];[1]]%Z.
 Proof. vm_compute. split; reflexivity. Qed.
+
+(* the fast encoder under fixed values (Greedy.fast_decode): the accepted vector keeps the fixed entries (in_space) and its
+   instance passes the check respects_fixed -- a fixed choice that the vector could not be applied to was not given another
+   option while its originating node is in the instance *)
+Theorem C15_fast_decode_respects_fixed : forall g vars x fixed imp inst,
+  requested_ok (nvars_of vars x fixed) ->
+  fast_decode true g vars x fixed = Some (Some (imp, inst)) ->
+  exists y taken, in_space (nvars_of vars x fixed) y /\ respects_fixed g vars y fixed taken inst = true /\
+                  imp = map (fun v => zlookup taken (fst v)) vars.
+Proof. exact fast_decode_respects. Qed.
+Print Assumptions C15_fast_decode_respects_fixed.
+
+(* as found (before 30ede4f, check off) the fixed value was ignored: choice 11 fixed to option 5, the free choice 10 asks for
+   node 3, which is incompatible with 5 -- the instance has 6 and the choice is reported inactive; with the check the
+   neighbour (10 -> 2, 11 -> 5) is returned *)
+Theorem C15_fixed_value_ignored_refuted :
+  fast_decode false g_f20 vars_f20 [1; 0]%Z [false; true] = Some (Some ([1; -1]%Z, [0; 1; 4; 3; 6]%N)) /\
+  fast_decode true g_f20 vars_f20 [1; 0]%Z [false; true] = Some (Some ([0; 0]%Z, [0; 1; 4; 2; 5]%N)).
+Proof. exact fixed_value_ignored_refuted. Qed.
+Print Assumptions C15_fixed_value_ignored_refuted.
